@@ -1,0 +1,42 @@
+//go:build verif
+// +build verif
+
+package rpc
+
+import (
+	"context"
+
+	"github.com/logrange/logrange/api"
+	"github.com/logrange/range/pkg/utils/encoding/xbinary"
+)
+
+// verifC18PoisonRpc is an rrpc.Client whose Call answers with a private copy of a prepared response body and whose
+// Collect overwrites that copy — what the transport's buffer pool does when it hands the collected buffer to the next
+// response (verification harness, tag verif).
+type verifC18PoisonRpc struct {
+	resp      []byte
+	last      []byte
+	collected int
+}
+
+func (f *verifC18PoisonRpc) Close() error { return nil }
+func (f *verifC18PoisonRpc) Collect(buf []byte) {
+	f.collected++
+	for i := range buf {
+		buf[i] = '#'
+	}
+}
+func (f *verifC18PoisonRpc) Call(ctx context.Context, funcId int, msg xbinary.Writable) ([]byte, error, error) {
+	f.last = append([]byte{}, f.resp...)
+	return f.last, nil, nil
+}
+
+// VerifC18ClientQueryBufferReused runs the real clntQuerier.Query over a transport that delivers the given response
+// body and overwrites the response buffer as soon as the client has collected it; it reports how often Collect was
+// called. What res holds afterwards must not depend on the buffer any more.
+func VerifC18ClientQueryBufferReused(body []byte, res *api.QueryResult) (int, error) {
+	rc := &verifC18PoisonRpc{resp: body}
+	cq := &clntQuerier{rc: rc}
+	err := cq.Query(context.Background(), &api.QueryRequest{Query: "select limit 10", Limit: 10}, res)
+	return rc.collected, err
+}
